@@ -139,6 +139,15 @@ type stepper struct {
 	hostA, hostP, hostH, hostX string
 	allowed                    []string
 
+	// the operator's entry for the frontend host E, spelled as the configuration says
+	hostE      string
+	eScheme    string // "https" | "http"
+	ePort      string // "none" | "default" | "other"
+	eForm      string // "bare" | "upper_scheme" | "upper_host" | "slash" | "path"
+	eOtherPort string // the non-default port an ePort = "other" entry names
+	eThirdPort string // a port that is neither that one nor a default port
+	entryE     string
+
 	// fake IdP
 	idpHost, idpPath, issuer    string
 	authEndpoint, tokenEndpoint string
@@ -222,6 +231,15 @@ func (s *stepper) Begin(b replay.Behaviour, rng *rand.Rand) error {
 	s.hostH = "plain-" + r + ".example.org"
 	s.hostX = "evil-" + r + ".example.net"
 	s.allowed = []string{"https://" + s.hostA, "https://" + s.hostP + ":8443", "http://" + s.hostH}
+	s.hostE = "front-" + r + ".example.io"
+	s.eScheme, s.ePort, s.eForm = "https", "none", "bare"
+	if v := replay.Str(a, "escheme"); v != "" {
+		s.eScheme, s.ePort, s.eForm = v, replay.Str(a, "eport"), replay.Str(a, "eform")
+	}
+	s.entryE = s.spellEntry()
+	// the entry sits anywhere in the operator's list
+	at := rng.Intn(len(s.allowed) + 1)
+	s.allowed = append(s.allowed[:at], append([]string{s.entryE}, s.allowed[at:]...)...)
 
 	s.idpHost = "idp-" + s.randLabel(4) + ".example.org"
 	s.idpPath = s.pick("", "/realms/main", "/tenant-"+s.randLabel(3))
@@ -268,6 +286,90 @@ func (s *stepper) Begin(b replay.Behaviour, rng *rand.Rand) error {
 	return nil
 }
 
+func defaultPort(scheme string) string {
+	if scheme == "http" {
+		return "80"
+	}
+	return "443"
+}
+
+// spellEntry writes the allowlist entry for host E the way the configuration
+// (escheme, eport, eform) says, and fixes the two non-default port numbers the
+// return URLs of the E family use.
+func (s *stepper) spellEntry() string {
+	// a non-default port for this entry's scheme: the OTHER scheme's default port is one
+	others := []string{"8443", "9443", "3000", "8080", "10443", "4430", "8000"}
+	if s.eScheme == "https" {
+		others = append(others, "80")
+	} else {
+		others = append(others, "443")
+	}
+	s.eOtherPort = s.pick(others...)
+	for {
+		s.eThirdPort = s.pick("8444", "9000", "1443", "44300", "8081", "65535", "81", "444", "4443")
+		if s.eThirdPort != s.eOtherPort {
+			break
+		}
+	}
+	scheme, host := s.eScheme, s.hostE
+	switch s.eForm {
+	case "upper_scheme":
+		scheme = strings.ToUpper(scheme)
+	case "upper_host":
+		host = strings.ToUpper(host)
+	}
+	e := scheme + "://" + host
+	switch s.ePort {
+	case "default":
+		e += ":" + defaultPort(s.eScheme)
+	case "other":
+		e += ":" + s.eOtherPort
+	}
+	switch s.eForm {
+	case "slash":
+		e += "/"
+	case "path":
+		e += s.pick("/app", "/app/", "/cb?x=1", "/a/b")
+	}
+	return e
+}
+
+// returnToE builds a return URL of the class "E.<scheme>.<host>.<port>".
+func (s *stepper) returnToE(class string) string {
+	parts := strings.Split(class, ".")
+	if len(parts) != 4 {
+		return "https://unknown-class-" + class + ".invalid/"
+	}
+	scheme, host, port := parts[1], parts[2], parts[3]
+	E, X := s.hostE, s.hostX
+	h := E
+	switch host {
+	case "upper":
+		h = strings.ToUpper(E)
+	case "look":
+		h = s.pick("sub."+E, E+"."+X, "x"+E, E+"x", strings.Replace(E, ".", "-", 1), X,
+			strings.TrimSuffix(E, ".io")+".com", E+".", "evil-"+E)
+	}
+	switch port {
+	case "default":
+		h += ":" + defaultPort(scheme)
+	case "other":
+		h += ":" + s.eOtherPort
+	case "third":
+		// neither the entry's port nor this URL's default port; the other scheme's
+		// default port is such a port too
+		third := s.eThirdPort
+		if cross := defaultPort(map[string]string{"https": "http", "http": "https"}[scheme]); cross != s.eOtherPort && s.rng.Intn(3) == 0 {
+			third = cross
+		}
+		h += ":" + third
+	}
+	if s.rng.Intn(6) == 0 {
+		scheme = strings.ToUpper(scheme) // url.Parse lower-cases it
+	}
+	return scheme + "://" + h + s.rtPath()
+}
+
 func (s *stepper) End() {
 	if current == s {
 		current = nil
@@ -284,6 +386,9 @@ func (s *stepper) rtPath() string {
 func (s *stepper) returnTo(class string) string {
 	A, P, H, X, D := s.hostA, s.hostP, s.hostH, s.hostX, "cupola.query-farm.services"
 	pad := func(base string) string { return base + "/cb?pad=" + strings.Repeat("p", 2049-len(base)) }
+	if strings.HasPrefix(class, "E.") {
+		return s.returnToE(class)
+	}
 	switch class {
 	case "none":
 		return ""
@@ -760,6 +865,9 @@ func (s *stepper) Step(i int, st replay.Step) (replay.Obs, error) {
 		obs["m_branch"] = branch
 		s.packedRt, s.packedOrig = false, "-"
 		note := fmt.Sprintf("GET %s -> %d Location=%q rt=%q", trunc(target), rec.Code, trunc(loc), trunc(s.rtURL))
+		if strings.HasPrefix(replay.Str(a, "rt"), "E.") {
+			note += fmt.Sprintf(" allowlist entry %q", s.entryE)
+		}
 		if branch == "redirect" {
 			s.cookie = cookie
 			u, _ := url.Parse(loc)
